@@ -76,6 +76,8 @@ def max_update(ctx, s, fn):
     for (b, i), L, v, paired in zstores:
         # *mine = *theirs under *mine < *theirs, mine/theirs drawn in lock step from the two register arrays
         ok = False
+        if v[0] == "call" and v[1].rsplit("::", 1)[-1] == "max" and len(v[2]) == 2:
+            ok = True       # *mine = max(*mine, *theirs): a pointwise max by construction (operands checked by _zip_stores)
         for f in ctx.E.facts(fn, b):
             if f[0] != "le" or f[1][0] != 1:
                 continue
@@ -129,7 +131,11 @@ def _zip_stores(ctx, s, fn):
         def comp(x):
             sel = [p[2][1] for p in find_values(x, lambda y: y[0] == "proj" and y[2][0] == "f" and y[1][0] == "proj" and y[1][2][0] == "f")]
             return sel[0] if sel else None
-        if comp(L) != 0 or comp(v) != 1:
+        if v[0] == "call" and v[1].rsplit("::", 1)[-1] == "max" and len(v[2]) == 2:
+            comps = sorted(c for c in (comp(v[2][0]), comp(v[2][1])) if c is not None)
+            if comp(L) != 0 or comps != [0, 1]:
+                continue
+        elif comp(L) != 0 or comp(v) != 1:
             continue
         site = nx[0][3]
         info = an.term.get(site[1]) if site else None
